@@ -156,6 +156,7 @@ type Interp struct {
 	asserts   []AssertRec
 	covers    map[string]bool
 	preempts  int
+	canonical  bool // symSchedCanonical: among several runnable threads the first (current, then lowest id) runs, no decision
 	preemptLim int // -1: cfg.Preempt; otherwise the absolute preemption count allowed (set by symPreemptBudget)
 	nowT      *Term
 	nowPinned bool
@@ -164,6 +165,7 @@ type Interp struct {
 	known     []knownRegion
 	pool      []Value // sync.Pool model: per-pool stacks keyed by pool cell
 	pools     map[*Cell][]Value
+	syncMaps  map[*Cell][]syncMapEntry // model of sync.Map: insertion-ordered association list
 	mutexes   map[*Cell]*mutexState
 	errSent   map[string]Value
 	onceDone  map[*Cell]bool
@@ -238,11 +240,13 @@ func (in *Interp) resetPath(prefix []int) {
 	in.covers = map[string]bool{}
 	in.preempts = 0
 	in.preemptLim = -1
+	in.canonical = false
 	in.nowT = nil
 	in.nowPinned = false
 	in.loopBound = 0
 	in.known = nil
 	in.pools = map[*Cell][]Value{}
+	in.syncMaps = map[*Cell][]syncMapEntry{}
 	in.mutexes = map[*Cell]*mutexState{}
 	in.errSent = map[string]Value{}
 	in.onceDone = map[*Cell]bool{}
